@@ -90,3 +90,9 @@ add("C15",
     "Families: Hyperband stopping/promotion/RUSH (1-2 brackets), synchronous Hyperband, DEHB, PBT, median rule, regularised evolution, TuningStatus best trial; <=3-4 trials, <=8 events",
     "symbolic execution of the real scheduler code (CrossHair engine + z3), paired execution in one path",
     "DESIGN.md 4 C15")
+add("C16",
+    "bounded model checking of snapshot twins: (a) dill round trip of the whole scheduler at a symbolic event index, original and restored object continue with the same symbolic events (Hyperband stopping/promotion, "
+    "synchronous Hyperband, DEHB, PBT, median rule, FIFO grid/BO pre-fit); (b) searcher get_state -> pickle -> clone_from_state for random and grid searchers with two seeds, snapshot index and result/failure events symbolic; "
+    "suggestions/decisions equal, no configuration repeated",
+    "symbolic execution of the real scheduler/searcher code (CrossHair engine + z3), twin continuation; pre-snapshot metrics pinned to one model value per path without branching",
+    "DESIGN.md 4 C16")
